@@ -49,7 +49,7 @@ def _child(job, wfd):
 
 def serve():
     from . import world  # noqa: F401  (installs seams + shim, imports cola; instantiates nothing)
-    from . import addr, calls, crashenum, interp, panel, program, program18, threads  # noqa: F401  (harness code only)
+    from . import addr, calls, crashenum, interp, panel, program, program18, threads, threads18  # noqa: F401  (harness code only)
     import numpy  # noqa
     inp = sys.stdin
     out = sys.stdout
